@@ -24,9 +24,15 @@ SKIP = {
 }
 
 
-def item_src(it, ann, spelling):
+# MC_C03!Lookalikes: serde arguments that resemble a skip marker and are none (the member stays part of the wire format)
+LOOKALIKE = {"none": "", "skip_serializing": "#[serde(skip_serializing)]", "skip_deserializing": "#[serde(skip_deserializing)]",
+             "skip_serializing_if": '#[serde(skip_serializing_if = "is_zero")]'}
+
+
+def item_src(it, ann, spelling, lookalike="none"):
     a = ANN[ann] if it["name"] == "Subject" else ("#[typeshare]\n" if it["annotated"] else "")
-    sk = lambda m: "".join(f"    {x}\n" for x in SKIP[spelling]) if m["skipped"] else ""
+    la = LOOKALIKE[lookalike] if it["name"] == "Subject" else ""
+    sk = lambda m: "".join(f"    {x}\n" for x in SKIP[spelling]) if m["skipped"] else (f"    {la}\n" if la else "")
     k, n = it["kind"], it.get("rust_name", it["name"])
     if it.get("rename"):
         a += f'#[serde(rename = "{it["rename"]}")]\n'
@@ -47,7 +53,7 @@ def item_src(it, ann, spelling):
             if m["payload"] == "newtype":
                 body += f"    {m['name']}(u32),\n"
             elif m["payload"] == "struct":
-                inner = "".join(("".join(f"        {x}\n" for x in SKIP[spelling]) if f["skipped"] else "") + f"        {f['name']}: u32,\n" for f in m["fields"])
+                inner = "".join(("".join(f"        {x}\n" for x in SKIP[spelling]) if f["skipped"] else (f"        {la}\n" if la else "")) + f"        {f['name']}: u32,\n" for f in m["fields"])
                 body += f"    {m['name']} {{\n{inner}    }},\n"
             else:
                 body += f"    {m['name']},\n"
@@ -77,7 +83,7 @@ def nest(src, nesting):
 def source(case, items):
     parts = []
     for it in items:
-        s = item_src(it, case["annotation"], case["spelling"])
+        s = item_src(it, case["annotation"], case["spelling"], case.get("lookalike", "none"))
         if it.get("rust_name"):          # the twin: same Rust identifier, in a module of its own
             s = "pub mod v2 {\n" + "".join("    " + l + "\n" for l in s.splitlines()) + "}\n"
         parts.append(nest(s, case["nesting"]) if it["name"] == "Subject" else s)
